@@ -7,6 +7,10 @@ Tie:    every derivative closure kind (compile_gradient / compile_jacobian / com
         `SV Float` (class 0 / ±1e16 exactly, finite values numerically) and over plain doubles;
         `_sanitize_derivatives` itself on arrays of special values; the unsanitised entry expressions evaluated by
         optyx (`evaluate`) vs `⟦·⟧` over `SV Float` (class nan / ±inf / 0 / finite — ties the IEEE rule tables).
+        Call sequences: ONE compiled callable of every closure kind driven through several requests (the same singular
+        point two/three times with new arrays and with the very same array object, singular→regular→singular,
+        regular→singular, the input array mutated in place between calls, +0.0 / −0.0 points that compare equal);
+        the model's closures are stateless, so every answer must be what a fresh callable returns for that point.
 Oracle: on the real output only: np.isfinite everywhere; an entry whose unsanitised value (gradient(e, v).evaluate
         at the point) is finite is returned unchanged, NaN → 0, ±Inf → ±1e16; the vectorised path equals the
         general path (the same node wrapped as `e + 0`).
@@ -35,6 +39,8 @@ ASSUMPTIONS = [
     "finite input points; overflow of a finite intermediate (exp(1000)) is not a singular point of the derivative and "
     "is outside the statement (the SV model over the reals has no overflow)",
     "the IEEE-754 / C99 special-value rules are modelled in Py/Sanitize.lean (SV) and tied to NumPy by this run",
+    "the model's closures are stateless (run depends on the point and the parameter store only); history independence of "
+    "the real callables is checked by call sequences, each answer compared with a fresh callable asked once",
     "sign of zero is not part of the statement (−0.0 == 0.0); NumPy computes x**0.5 as sqrt(x) (sign of zero only)",
 ]
 LARGE = 1e16
@@ -99,6 +105,29 @@ def points_for(rng, n, thorough):
     for _ in range(8 if thorough else 2):
         pts.append([rng.choice(SPECIALS + BASE) for _ in range(n)])
     return pts
+
+
+def sequences_for(rng, n, thorough):
+    """call sequences over the singular / regular points of an n-variable closure"""
+    pts = points_for(rng, n, False)
+    sing = pts[:-2] if len(pts) > 2 else pts
+    reg = [BASE[(i + 3) % len(BASE)] for i in range(n)]
+    zero, negzero = [0.0] * n, [-0.0] * n
+    out = []
+    picks = [sing[rng.randrange(len(sing))] for _ in range(3 if thorough else 2)]
+    for k, p in enumerate(picks):
+        other = sing[rng.randrange(len(sing))]
+        q = reg if k % 2 == 0 else other
+        twins = (zero, negzero) if k == 0 else None
+        if k == 1:
+            # the same coordinates, one of them with the other sign of zero
+            j = rng.randrange(n)
+            a = list(p); b = list(p)
+            a[j], b[j] = 0.0, -0.0
+            twins = (a, b)
+        for name, steps in J.standard_sequences(rng, p, q, twins):
+            out.append((f"{name}#{k}", steps))
+    return out
 
 
 def compile_kind(kind, e, V):
@@ -290,6 +319,22 @@ def run(ctx) -> core.Report:
             if len(rep.samples) < 8 and kind == "grad" and len(V) <= 4:
                 rep.samples.append({"tag": tag, "closure": pname, "x": [J.num_tok(a) for a in xs],
                                     "unsanitised": [str(r) for r in raw], "returned": got})
+    # call sequences on one callable per closure case (history independence; every repeated answer finite)
+    n_seq_calls = 0
+    for tag, kind, e, V in cases:
+        if not V:
+            continue
+        seqs = sequences_for(rng, len(V), thorough)
+        fails, n_calls = J.check_sequences(kind, [e], V, seqs, require_finite=True)
+        n_seq_calls += n_calls
+        for f in fails:
+            f.update(J.payload_of([e], V, f["x"], J.all_params([e])))
+            f["tag"] = tag
+            f["require_finite"] = True
+            rep.oracle_failures.append(f)
+    rep.histogram["sequence_calls"] = n_seq_calls
+    rep.evaluations += n_seq_calls
+
     for tag, g, point, idx in ev_metas:
         real = J.grab(lambda: float(np.asarray(g.evaluate(point))))
         rep.histogram["evalsv"] = rep.histogram.get("evalsv", 0) + 1
@@ -323,6 +368,17 @@ def search(ctx, rep):
     rng = core.Rng(ctx["seed"] + 32452843)
     for rnd in range(3):
         for tag, kind, e, V in closure_cases(rng):
+            if V:
+                sf, _ = J.check_sequences(kind, [e], V, sequences_for(rng, len(V), True), require_finite=True)
+                if sf:
+                    f = sf[0]
+                    try:
+                        f.update(J.payload_of([e], V, f["x"], J.all_params([e])))
+                    except Unsupported:
+                        continue
+                    f["tag"] = tag
+                    f["require_finite"] = True
+                    return f
             for xs in points_for(rng, len(V), True):
                 fails = check_real(kind, e, V, xs)
                 if fails:
@@ -347,6 +403,8 @@ def replay(payload) -> bool:
         ok = [float(v) for v in res] == [expected_from_raw(v) for v in arr]
         print("sanitize:", list(res))
         return ok
+    if f.get("kind") == "call-sequence":
+        return J.replay_sequence(f)
     es, V, xs = J.rebuild(f)
     fails = check_real(f.get("deriv", "grad"), es[0], V, xs)
     for g in fails:
